@@ -2,6 +2,7 @@ package main
 
 import (
 	"fmt"
+	"sync"
 	"go/constant"
 	"go/token"
 	"go/types"
@@ -47,6 +48,7 @@ type addr struct {
 }
 
 type Oblig struct {
+	Block   *ssa.BasicBlock // block the obligation belongs to (context slicing)
 	Name   string
 	Kind   string
 	Props  []string
@@ -82,6 +84,7 @@ type candidate struct {
 	text  string
 	e     Expr
 	frame string // non-empty: automatic frame candidate for this heap (pre-existing objects unchanged)
+	iterVar, iterName string // candidate "named int variable == hidden iterator count"
 	alive bool
 }
 
@@ -90,7 +93,9 @@ type iterInfo struct {
 	isMap    bool
 	x        string // term of ranged value
 	xty      types.Type
-	posVar   string // local var name holding the position (string iterators)
+	posVar   string // local var name holding the position (string iterators) or count (maps)
+	cntVar   string // string iterators: number of decode steps taken
+	stable   bool   // map iterators: the map is not written inside the loop
 }
 
 type FnCtx struct {
@@ -146,6 +151,9 @@ type FnCtx struct {
 	houdiniObs    []*houdiniOb
 	pendingHavoc  []string
 	finalized     bool
+	ctxBlock      []int
+	ancCache      map[int]map[int]bool
+	ancMu         sync.Mutex
 	covers        []*Oblig
 	readSnaps     map[string]heapState
 	readSnapOrder []string
@@ -185,6 +193,40 @@ func (c *FnCtx) assume(t string) {
 		return
 	}
 	c.ctx = append(c.ctx, t)
+	b := -1
+	if c.curBlock != nil {
+		b = c.curBlock.Index
+	}
+	c.ctxBlock = append(c.ctxBlock, b)
+}
+
+// ancestorsOf: blocks from which b is reachable along non-back edges (including b).
+func (c *FnCtx) ancestorsOf(b *ssa.BasicBlock) map[int]bool {
+	c.ancMu.Lock()
+	defer c.ancMu.Unlock()
+	if c.ancCache == nil {
+		c.ancCache = map[int]map[int]bool{}
+	}
+	if a, ok := c.ancCache[b.Index]; ok {
+		return a
+	}
+	anc := map[int]bool{b.Index: true}
+	stack := []*ssa.BasicBlock{b}
+	for len(stack) > 0 {
+		x := stack[len(stack)-1]
+		stack = stack[:len(stack)-1]
+		for _, p := range x.Preds {
+			if c.isBackEdge(p, x) {
+				continue
+			}
+			if !anc[p.Index] {
+				anc[p.Index] = true
+				stack = append(stack, p)
+			}
+		}
+	}
+	c.ancCache[b.Index] = anc
+	return anc
 }
 
 func (c *FnCtx) assumeAt(guard, t string) { c.assume(implies(guard, t)) }
@@ -241,7 +283,7 @@ func (c *FnCtx) oblige(kind string, props []string, guard, goal string, pos toke
 		}
 		break
 	}
-	o := &Oblig{Kind: kind, Props: props, Goal: implies(g, body), Prefix: len(c.ctx), NDecl: -1, Pos: pos, PosStr: c.posStr(pos), Fn: c.key, Clause: cl, Detail: detail, ctx: c}
+	o := &Oblig{Block: c.curBlock, Kind: kind, Props: props, Goal: implies(g, body), Prefix: len(c.ctx), NDecl: -1, Pos: pos, PosStr: c.posStr(pos), Fn: c.key, Clause: cl, Detail: detail, ctx: c}
 	base := fmt.Sprintf("%s/%s", c.key, kind)
 	if cl != nil {
 		base = fmt.Sprintf("%s/%s@L%d", c.key, kind, cl.Line)
